@@ -1,5 +1,6 @@
 import AFDriver.Wire
 import AFModel.Interp
+import AFModel.InterpCov
 
 /-! Driver for C20: decodes a series of instance trees, runs `AF.Interp.getitem` / `plan`.
 Floats arrive as 16 hex digits and are converted to the rational they denote exactly; rationals
@@ -80,7 +81,39 @@ def errName : Err → String
 def ratsOfJson (j : Json) : Except String (List Rat) := do
   (← j.getArr?).toList.mapM ratOfJson
 
+def c20MatOfJson (j : Json) : Except String (List (List Rat)) := do
+  (← j.getArr?).toList.mapM ratsOfJson
+
+def c20JsonOfRats (l : List Rat) : Json := Json.arr (l.map jsonOfRat).toArray
+
+/-- request kind `cov`: the plumbing of the `CovarianceInterpolator` (`AF.InterpCov.run`) -/
+def handleC20Cov (j : Json) : Except String Json := do
+  let ss ← (← getArr j "samples").toList.mapM fun s => do
+    pure ({ t := (← ratOfJson (← s.getObjVal? "t")),
+            params := (← ratsOfJson (← s.getObjVal? "params")),
+            cov := (← c20MatOfJson (← s.getObjVal? "cov")),
+            logl := (← ratOfJson (← s.getObjVal? "logl")) } : AF.InterpCov.Sample)
+  let rels ← (← getArr j "rels").toList.mapM fun e => do
+    let pair ← e.getArr?
+    if pair.size != 2 then throw "bad relationship"
+    pure ((← ratOfJson pair[0]!), (← ratOfJson pair[1]!))
+  let k ← getNat j "k"
+  let v ← ratOfJson (← j.getObjVal? "v")
+  let held ← ratOfJson (← j.getObjVal? "held")
+  let cfg : AF.InterpCov.Cfg :=
+    { blocksSorted := (getBool j "blocks_sorted").toOption.getD false,
+      setsVariable := (getBool j "sets_variable").toOption.getD false }
+  let out := AF.InterpCov.run cfg k ss rels v
+  pure (Json.mkObj [
+    ("x", c20JsonOfRats out.x), ("y", c20JsonOfRats out.y),
+    ("cov", Json.arr (out.cov.map c20JsonOfRats).toArray),
+    ("single", match out.single with | some i => Json.num (i : Lean.JsonNumber) | none => Json.null),
+    ("values", c20JsonOfRats out.values),
+    ("variable", jsonOfRat (AF.InterpCov.covVariable cfg held v))])
+
 def handleC20 (j : Json) : Except String Json := do
+  if (getStr j "q").toOption.getD "getitem" == "cov" then
+    return (← handleC20Cov j)
   let insts ← (← getArr j "insts").toList.mapM parseVal
   let tp ← (← getArr j "tp").toList.mapM keyOfJson
   let q := (getStr j "q").toOption.getD "getitem"
